@@ -34,7 +34,6 @@ ASSUMPTIONS = ["input graphs are connected and simple (checked by the harness it
 EXPLANATION = ("SPECFAIL messages start with the '+'-joined labels of the failing clauses; labels with '~' name a recognised "
                "sub-class (sizesKept~ulp, routeOrthogonal~hairline, sep~treeCentreAlign, sep~staleAlignBentEdge, "
                "sep~staleAlignStraightEdge, sep~bdryExtraGap) so that known findings can be matched on the exact label set.")
-WIP = True
 
 def plan(tier, seed, searching):
     return [dict(hargs=["--seed", str(seed), "--tier", tier, "--scale", "8" if searching else "1"], timeout=3000)]
